@@ -596,6 +596,8 @@ impl RoomDefinitionLog {
         room_id: &Uid,
         conn: &Connection,
     ) -> Result<Option<RoomDefinitionLog>, rusqlite::Error> {
+        //every entity of the room is part of the comparison, not only one of those modified the last day:
+        //retrieves the most recent log of each entity
         let query = "
             SELECT 
                 rcl.room_id as room_id,  
@@ -608,30 +610,84 @@ impl RoomDefinitionLog {
             LEFT JOIN (
                 SELECT 
                     _dl.room_id,
+                    _dl.entity,
                     _dl.date,
                     _dl.entry_number,
                     _dl.daily_hash,
                     _dl.history_hash
                 FROM _daily_log _dl
-                WHERE date = (SELECT MAX(date) FROM _daily_log WHERE _dl.room_id=_daily_log.room_id)
+                WHERE date = (
+                    SELECT MAX(date) FROM _daily_log 
+                    WHERE _dl.room_id=_daily_log.room_id AND _dl.entity=_daily_log.entity
+                )
             ) as dl ON rcl.room_id=dl.room_id
             WHERE rcl.room_id = ?
+            ORDER BY dl.entity
             ";
         let mut stmt = conn.prepare(query)?;
         let mut rows = stmt.query([&room_id])?;
-        let res = if let Some(row) = rows.next()? {
-            Some(RoomDefinitionLog {
-                room_id: row.get(0)?,
-                room_def_date: row.get(1)?,
-                last_data_date: row.get(2)?,
-                entry_number: row.get(3)?,
-                daily_hash: row.get(4)?,
-                history_hash: row.get(5)?,
-            })
-        } else {
-            None
-        };
+
+        let mut res: Option<RoomDefinitionLog> = None;
+        let mut last_day: Vec<(Option<u32>, Option<Vec<u8>>)> = Vec::new();
+        let mut histories: Vec<Option<Vec<u8>>> = Vec::new();
+        while let Some(row) = rows.next()? {
+            let date: Option<i64> = row.get(2)?;
+            let entry_number: Option<u32> = row.get(3)?;
+            let daily_hash: Option<Vec<u8>> = row.get(4)?;
+            let history_hash: Option<Vec<u8>> = row.get(5)?;
+            match &mut res {
+                None => {
+                    res = Some(RoomDefinitionLog {
+                        room_id: row.get(0)?,
+                        room_def_date: row.get(1)?,
+                        last_data_date: date,
+                        entry_number: None,
+                        daily_hash: None,
+                        history_hash: None,
+                    });
+                }
+                Some(log) => {
+                    if date > log.last_data_date {
+                        log.last_data_date = date;
+                        last_day.clear();
+                    }
+                }
+            }
+            if let Some(log) = &res {
+                if date.is_some() {
+                    if date == log.last_data_date {
+                        last_day.push((entry_number, daily_hash));
+                    }
+                    histories.push(history_hash);
+                }
+            }
+        }
+
+        if let Some(log) = &mut res {
+            if !last_day.is_empty() {
+                log.entry_number = Some(last_day.iter().map(|e| e.0.unwrap_or(0)).sum());
+                log.daily_hash = Self::combine(last_day.into_iter().map(|e| e.1).collect());
+                log.history_hash = Self::combine(histories);
+            }
+        }
         Ok(res)
+    }
+
+    //a single hash is kept unchanged, a missing hash makes the combination unknown
+    fn combine(mut hashes: Vec<Option<Vec<u8>>>) -> Option<Vec<u8>> {
+        if hashes.len() == 1 {
+            return hashes.pop().unwrap();
+        }
+        let mut hasher = blake3::Hasher::new();
+        for hash in &hashes {
+            match hash {
+                Some(hash) => {
+                    hasher.update(hash);
+                }
+                None => return None,
+            }
+        }
+        Some(hasher.finalize().as_bytes().to_vec())
     }
 }
 #[cfg(test)]
